@@ -41,7 +41,7 @@ TReset ==
   /\ b' = NoBuild /\ mem' = EmptyRows /\ epoch' = 0
   /\ st' = [k \in Keys |-> "idle"] /\ fin' = {} /\ sawc' = {}
   /\ seen' = [c \in CmdNames |-> NoSeen] /\ flast' = {} /\ tampered' = {}
-  /\ quiet' = NotQuiet /\ alldb' = TRUE /\ last' = NoLast
+  /\ quiet' = NotQuiet /\ alldb' = "none" /\ last' = NoLast
 
 TEdit     == Is("Edit") /\ Adv /\ EditSource(ev.p, ev.d, ev.t) /\ UNCHANGED be
 TTouch    == Is("Touch") /\ Adv /\ TouchSource(ev.p, ev.t) /\ UNCHANGED be
@@ -112,7 +112,7 @@ TraceInit ==
   /\ b = NoBuild /\ mem = EmptyRows /\ epoch = 0
   /\ st = [k \in Keys |-> "idle"] /\ fin = {} /\ sawc = {}
   /\ seen = <<>> /\ flast = {} /\ tampered = {}
-  /\ quiet = NotQuiet /\ alldb = TRUE /\ last = NoLast
+  /\ quiet = NotQuiet /\ alldb = "none" /\ last = NoLast
   /\ TLCSet(1, 0)
 
 TraceNext ==
